@@ -338,6 +338,14 @@ def proj_map(log, mlanes, keys=(1, 2, 3)):
                 # JSON object keys are strings; the spec indexes by integer keys -> give a sequence indexed 1..n
                 out.append({"e": "init", "maps": {l: [d2 for d2 in (maps[l][str(kk)] for kk in keys)] for l in mlanes}})
             first_start = False
+        elif k == "store" and e.get("item") in mlanes and e.get("op") in ("clr", "upd", "rem"):
+            kk, vv = parse_int(e.get("key")), parse_int(e.get("body"))
+            if e["op"] == "clr":
+                out.append({"e": "sclr", "lane": e["item"]})
+            elif e["op"] == "upd" and kk is not None and vv is not None:
+                out.append({"e": "supd", "lane": e["item"], "k": kk, "v": vv})
+            elif e["op"] == "rem" and kk is not None:
+                out.append({"e": "srem", "lane": e["item"], "k": kk})
         elif k == "lane" and e["lane"] in mlanes:
             o = {"e": "op", "lane": e["lane"], "m": e["op"]}
             if e["op"] in ("upd", "rem"):
